@@ -55,6 +55,47 @@ def ring_part(work, binp, cov, quick, seed, prop):
     return 0
 
 
+MUX_MON = ["M_MuxWriteLog", "M_MuxCreatedFresh", "M_MuxEventsKnownWatch", "M_MuxEventsMatch", "M_MuxOrderedOnce", "M_MuxHeaderIsLastEvent",
+           "M_MuxDeleteCarriesPrevious", "M_MuxEndedIsSilent", "M_MuxNoSpuriousCancel", "M_MuxCompleteAtQuiet", "M_MuxCancelAnswered",
+           "M_MuxHandlerReturns", "M_MuxNoSubscriptionLeft"]
+
+
+def mux_part(work, binp, cov, quick, seed, prop, monitors=None):
+    """The etcd watch stream as a component (pkg/server/etcd/watch.go): several watches on one stream, on nested prefixes, from
+    revision 0 / inside the cached window / the next revision; cancel requests; a send that fails for one watch; the end of the
+    stream. WatchMux.tla model-checked; its client scripts executed on the real RPCServer.Watch over a recording stream (writes
+    through the real Txn handler); every response judged by TLC (TraceWatchMux.tla)."""
+    import fam_comp
+    monitors = monitors or MUX_MON
+    base = dict(MaxWatches=2, MaxWrites=3, MaxCancels=1, GenHist=False)
+    invs = ["DeliveredMatches", "DeliveredIsPrefix", "CompleteWhenQuiet"]
+    r = tlc(work, "WatchMux.tla", fam_comp.simple_cfg(base, invs, view=False) + "PROPERTIES EndedIsSilent EndIsIsolated\n", timeout=1800, name="mcmux")
+    if r["violated"] or not r.get("ok"):
+        raise Undecided("TLC on WatchMux.tla: %s %s" % (r["violated"], r["error"]))
+    cov["states"] += r["distinct"]; cov["transitions"] += r["states"]
+    cov["mc_runs"].append(dict(module="WatchMux.tla", config="2 watches on one stream over 3 nested prefixes, 3 writes/deletes, 1 cancel request, failed sends, end of stream",
+                               distinct_states=r["distinct"], states_generated=r["states"], invariants=invs, properties=["EndedIsSilent", "EndIsIsolated"]))
+    log("MC WatchMux.tla: %d distinct states" % r["distinct"])
+    traces = []
+    for engine, n in (("memkv", 320 if quick else 4000),) + ((("tikv", 400), ("badger", 400)) if not quick else ()):
+        behs = fam_comp.gen(work, "WatchMux.tla", dict(MaxWatches=3, MaxWrites=5 if quick else 6, MaxCancels=2), seed, n, 18, name="genmux_" + engine)
+        rep, trs, _ = fam_comp.run_driver(work, binp, "muxrun", behs, engine, 16, name="muxrun_" + engine)
+        cov["evaluations"] += rep.get("behaviours", 0); cov["distinct_nontrivial"] += rep.get("nontrivial", 0)
+        cov["replay"].append(dict(engine=engine, what="client scripts of WatchMux.tla on the real etcd watch handler (one stream, several watches, cancel, failed send, end of stream)",
+                                  behaviours=rep.get("behaviours", 0), with_several_watches=rep.get("nontrivial", 0), not_executable=rep.get("obs_mismatch", 0)))
+        log("muxrun %s: %d scripts of WatchMux.tla on the real watch handler (%d with several watches)" % (engine, rep.get("behaviours", 0), rep.get("nontrivial", 0)))
+        if rep.get("agreed", 0) < rep.get("behaviours", 0) // 2:
+            raise Undecided("fewer than half of the scripts of WatchMux.tla could be executed")
+        traces += trs
+    ntr, v = validate_all(work, traces, monitors, module="TraceWatchMux.tla", chunks=4)
+    cov["traces_validated_against_impl"] += ntr
+    cov["monitors_mux"] = monitors
+    if v:
+        report_violation(prop, seed, v)
+        return 1
+    return 0
+
+
 def bulk_part(work, binp, cov, quick):
     """C05 at the real constants: full sequencer batches (300) and a catch-up over more cached events than 100 batches of 300."""
     trs = []
@@ -162,6 +203,8 @@ def check_watch(prop, tier, seed):
             report_violation(prop, seed, v)
         if prop == "C05" and not violations:
             violations += ring_part(work, binp, cov, quick, seed, prop)
+        if prop == "C05" and not violations:
+            violations += mux_part(work, binp, cov, quick, seed, prop)
         cov["rule"] = ("behaviours = complete schedules of spec/KubeBrain.tla with writers, sequencer (poll / cache insert / flush), hub and watchers "
                        "(subscribe / cache read / decide / forward / close), generated by TLC simulation and replayed gate by gate; non-trivial = a watcher or "
                        "second writer overlaps a writer's lifetime")
